@@ -194,7 +194,7 @@ func call(f string, a ...Expr) Expr { return Expr{K: "call", V: f, A: a} }
 // callsOf lists the function calls producing typ: {name, parameter leaf types…}.
 var callsOf = map[string][][]string{
 	"int":    {{"abs", "int"}, {"max", "int", "int"}, {"min", "int", "int"}, {"first", "intlist"}, {"last", "intlist"}, {"incp", "*int"}, {"addp", "*int", "int"}, {"len", "list"}, {"len", "string"}, {"len", "map"}, {"int", "numstr"}, {"int", "int"}, {"add", "int", "int"}, {"sum", "int", "int", "int"}},
-	"float":  {{"abs", "float"}, {"half", "float"}, {"scale", "float", "float"}},
+	"float":  {{"round", "float", "digits"}, {"abs", "float"}, {"half", "float"}, {"scale", "float", "float"}},
 	"string": {{"first", "strlist"}, {"last", "strlist"}, {"fmtDate", "*time"}, {"upp", "*string"}, {"pname", "*rec"}, {"typ", "*any"}, {"typ", "anyval"}, {"kinds", "anyval", "anyval"}, {"divide", "numval", "numval"}, {"upper", "string"}, {"lower", "string"}, {"trim", "string"}, {"string", "int"}, {"string", "fracfloat"}, {"string", "string"}, {"greet", "string"}, {"ctxup", "string"}, {"title", "lowstr"}, {"pick", "bool", "string", "string"}},
 	"bool":   {{"isBig", "int"}, {"neg", "bool"}},
 }
@@ -231,6 +231,8 @@ func (g *gen) callExpr(t *rapid.T, typ string, nonShared, top bool) Expr {
 			}
 		case "lowstr":
 			e.A = append(e.A, Expr{K: "path", V: pick(t, "lowpath", g.c().lowstr)})
+		case "digits":
+			e.A = append(e.A, Expr{K: "int", V: pick(t, "digits", []string{"0", "1", "2"})})
 		case "intlist":
 			e.A = append(e.A, p("xs"))
 		case "strlist":
@@ -465,7 +467,30 @@ func (g *gen) genExprCase(t *rapid.T) Case {
 	if c.Fam == "expr" && rapid.IntRange(0, 39).Draw(t, "history") == 0 {
 		c.History = pick(t, "historyN", []int{300, 300, 520})
 	}
+	if c.Fam == "expr" && hasRegisteredCall(*c.E) && rapid.IntRange(0, 5).Draw(t, "late") == 0 {
+		c.Late = true // the functions are registered after a first evaluation on the same engine
+	}
+	return afterFailure(t, c)
+}
+
+// afterFailure puts a failing render built from the case's own source in front of it.
+func afterFailure(t *rapid.T, c Case) Case {
+	if (c.Fam == "expr" || c.Fam == "pipe") && rapid.IntRange(0, 5).Draw(t, "after") == 0 {
+		c.After = pick(t, "afterwhere", []string{"fresh", "same"})
+	}
 	return c
+}
+
+func hasRegisteredCall(e Expr) bool {
+	r := false
+	e.walk(func(x Expr, _ int) {
+		if x.K == "call" {
+			if f := funcs[x.V]; f != nil && !f.builtin {
+				r = true
+			}
+		}
+	})
+	return r
 }
 
 func (g *gen) genExprCase0(t *rapid.T) Case {
@@ -747,7 +772,7 @@ func (g *gen) genPipeCase(t *rapid.T) Case {
 	init := pick(t, "init", pipeInits)
 	n := pick(t, "len", []int{1, 2, 2, 3, 3})
 	st, final := g.chain(t, env, init, n, true)
-	return respell(t, pipeCase(envID, init, st, final))
+	return afterFailure(t, respell(t, pipeCase(envID, init, st, final)))
 }
 
 // ---------------------------------------------------------------- family C: errors
@@ -979,6 +1004,12 @@ func classify(c Case) (bool, []string) {
 	cls := []string{"fam=" + c.Fam, fmt.Sprintf("env=%d", c.Env)}
 	for _, p := range c.Pos {
 		cls = append(cls, "pos="+p)
+	}
+	if c.After != "" {
+		cls = append(cls, "after-failure="+c.After)
+	}
+	if c.Late {
+		cls = append(cls, "A:functions registered after a first evaluation on the same engine")
 	}
 	if c.History > 0 {
 		cls = append(cls, "A:engine history (checked again after hundreds of other expressions)")
